@@ -94,6 +94,31 @@ pub fn single_op_space(tier: Tier, var: u64) -> Vec<Single> {
             }
         }
     }
+    // both operands are views of one buffer: an array and a reshape of it with different dimensions
+    for d in union(shapes(3, 3), vec![vec![2, 1, 2, 2], vec![1, 2, 1, 3]]) {
+        for d2 in shapes_with_numel(numel(&d), 4) {
+            if d2 == d || broadcast_dims(&d, &d2).is_none() {
+                continue;
+            }
+            for op in [OpK::Mul, OpK::Add, OpK::Sub, OpK::Div] {
+                for swap in [false, true] {
+                    out.push(Single {
+                        family: "aliased-views",
+                        prog: Program {
+                            leaves: vec![leaf(&d, 0, 2, var)],
+                            nodes: vec![
+                                PNode { op: OpK::Reshape(d2.clone()), args: vec![0] },
+                                PNode { op: op.clone(), args: if swap { vec![1, 0] } else { vec![0, 1] } },
+                            ],
+                            retrack: Vec::new(),
+                            frozen: Vec::new(),
+                            dropped: Vec::new(),
+                        },
+                    });
+                }
+            }
+        }
+    }
     // larger sizes, sparsely: long last dimensions, long inner dimensions
     for d in long_shapes() {
         for (op, kind) in &unary {
@@ -199,7 +224,8 @@ pub fn explore(opts: &Opts) -> Explored {
                 return;
             }
         };
-        let out_n = base[nl].len();
+        let root = p.nv() - 1;
+        let out_n = base[root].len();
         let mut seeds: Vec<Option<Vec<f64>>> = vec![None, Some(seed_vals(out_n, opts.seed))];
         if thorough {
             for e in 0..out_n {
@@ -211,7 +237,7 @@ pub fn explore(opts: &Opts) -> Explored {
         for m in 1u32..(1 << nl) {
             let mask: Vec<bool> = (0..nl).map(|k| m & (1 << k) != 0).collect();
             for seed in &seeds {
-                let passes = vec![Pass { root: nl, seed: seed.clone() }];
+                let passes = vec![Pass { root, seed: seed.clone() }];
                 let case = || {
                     format!(
                         "{} vals={:?} mask={:?} {}",
@@ -225,7 +251,7 @@ pub fn explore(opts: &Opts) -> Explored {
                 if !l.want(&case) {
                     continue;
                 }
-                let sub = format!("{}/{}", s.family, p.nodes[0].op.name());
+                let sub = format!("{}/{}", s.family, p.nodes[p.nodes.len() - 1].op.name());
                 let cfg = CheckCfg { sub: &sub, intermediates: true, values: true };
                 let v = check_program(p, &mask, &passes, &cfg, l, &case);
                 if v == Verdict::Ok {
